@@ -1,2 +1,3 @@
 """Spec layer: executable, translatable Python definitions (see DESIGN.md section 5)."""
 from .matchspec import *      # noqa
+from .pyfuncs import *       # noqa
